@@ -443,6 +443,25 @@ def run(ctx):
                         ctx.violation("failing-input", {"what": "write_lines altered a plain line", "input": list(c), "observed": got})
                         found += 1
                         break
+        # write_lines: a literal line ('@' + text, the documented way to write text that begins with a formatting character) is
+        # written as write_continue writes the text after the '@' (whatever it ends with) and leaves the indentation where it was
+        if found == 0:
+            lits = [["@x = a +", "y;"], ["@int r = a +", "@    b +", "@    c;", "return r;"], ["@+", "next"], ["@-z+", "w"], ["@# not a directive +"]]
+            for ind0 in (0, 1, 3):
+                for items in lits:
+                    c = (72, ind0, "  ", "", items)
+                    got = impl_wl(w, *c)
+                    exp = []
+                    for x in items:
+                        r = impl_wc(w, 72, ind0, "  ", "", x[1:] if x.startswith("@") else x)
+                        exp.append(r[3:])
+                    if got != "OK|%d|%s" % (ind0, ";".join(exp)):
+                        ctx.violation("failing-input", {"what": "write_lines altered a literal ('@') line or moved the indentation after it", "input": list(c), "observed": got,
+                                                        "expected": "OK|%d|%s" % (ind0, ";".join(exp))})
+                        found += 1
+                        break
+                if found:
+                    break
 
 
 def replay(path):
